@@ -60,7 +60,7 @@ fn well_defined(shape: &ShapeSpec) -> bool {
 }
 
 fn in_range_report(v: &Value, input: Option<&Params>, group: usize, what: &str) -> Result<Params, String> {
-    let p = statejson::read_params(v).ok_or_else(|| format!("{}: the state's JSON lacks the parameter fields", what))?;
+    let p = statejson::read_params(v).ok_or_else(|| format!("{}: a parameter of the returned state is not a finite number (its JSON holds no number for one of length, ratio, angle, x, y, orientation)", what))?;
     let eps = 0.;
     let chk = |name: &str, val: f64, lo: f64, hi: f64| -> Result<(), String> {
         if !(val >= lo - eps && val <= hi + eps) {
@@ -374,7 +374,7 @@ fn multi_ranges(v: &Value, input: &Value, group: usize, custom: bool, what: &str
             Ok(())
         }
     };
-    let num = |x: &Value, n: &str| x[n].as_f64().ok_or_else(|| format!("{}: the state's JSON lacks {}", what, n));
+    let num = |x: &Value, n: &str| x[n].as_f64().ok_or_else(|| format!("{}: the returned state holds no finite number for {} (JSON null)", what, n));
     let (sites, sites0) = (v["occupied_sites"].as_array().ok_or("no sites")?, input["occupied_sites"].as_array().ok_or("no sites")?);
     if sites.len() != sites0.len() {
         return Err(format!("{}: the number of occupied sites changed from {} to {}", what, sites0.len(), sites.len()));
